@@ -15,7 +15,7 @@ for id in "${ids[@]}"; do
   extra=$(python3 -c "import json;print(','.join(json.load(open('$d/meta.json')).get('also_check',[])))")
   props=$prop; [ -n "$extra" ] && props="$prop,$extra"
   git -C /repo apply "$PWD/$d/patch.diff" || { echo "$id: patch does not apply"; continue; }
-  bin/vcheck -repo /repo -verif /verif -evidence-dir "$SCR" -prop "$props" > "$SCR/out.txt" 2>&1; rc=$?
+  ${VCHECK_BIN:-bin/vcheck} -repo /repo -verif /verif -evidence-dir "$SCR" -prop "$props" > "$SCR/out.txt" 2>&1; rc=$?
   git -C /repo checkout -- .
   python3 - "$d" "$SCR/out.txt" "$rc" "$props" <<'PY'
 import json,sys,re
